@@ -1491,6 +1491,7 @@ sexp sexp_sub (sexp ctx, sexp a, sexp b) {
 #if SEXP_USE_RATIOS
   case SEXP_NUM_RAT_CPX:
     a = tmp1 = sexp_make_flonum(ctx, sexp_ratio_to_double(ctx, a));
+    a = tmp1 = sexp_make_complex(ctx, a, SEXP_ZERO);
     goto complex_sub;
   case SEXP_NUM_CPX_RAT:
     b = tmp1 = sexp_make_flonum(ctx, sexp_ratio_to_double(ctx, b));
